@@ -344,7 +344,7 @@ void orc_c07_api(const ApiRec &r, const Frame &f, const std::string &snap0, cons
         else if (r.rc != 0) VIOL("C07", "C07:fresh-context-refused", "registering a context on a thread without one returned %d", r.rc);
         return;
     }
-    if (!W->has_ctx) {
+    if (!W->has_ctx && !f.had_ctx_at_entry) {
         // context-less thread: every context call / module operation fails and changes nothing
         if (n == "ctx_misc" || n == "query") return;
         if (r.rc >= 0 && n != "reg") VIOL("C07", "C07:call-without-context-accepted", "%s on a thread without a context returned %d", n.c_str(), r.rc);
@@ -352,7 +352,9 @@ void orc_c07_api(const ApiRec &r, const Frame &f, const std::string &snap0, cons
         if (!snap1.empty() && snap0 != snap1) VIOL("C07", "C07:call-without-context-had-effect", "%s on a thread without a context changed the observable state", n.c_str());
         return;
     }
+    if (!W->has_ctx) return;
     if (n == "ctx_dereg") {
+        if (frame_on_stack_any("ctx_dereg")) return;   // re-entrant call from a callback of the deregistration itself: unconstrained
         if (W->c07_looping_at_entry) {
             if (r.rc >= 0) VIOL("C07", "C07:deregister-while-looping", "m_ctx_deregister on a looping context returned %d", r.rc);
             if (snap0 != snap1) VIOL("C07", "C07:deregister-while-looping-had-effect", "refused m_ctx_deregister changed the observable state");
@@ -361,12 +363,15 @@ void orc_c07_api(const ApiRec &r, const Frame &f, const std::string &snap0, cons
         if (r.rc != 0) VIOL("C07", "C07:deregister-idle-refused", "m_ctx_deregister on an idle context returned %d", r.rc);
         for (auto &s : W->slots) {
             if (s.ctx_gen != W->ctx_registrations || s.st == ST_NONE) continue;
+            if (frame_on_stack("dereg", s.idx)) continue;   // in the middle of its own deregistration (we are inside one of its callbacks)
             if (s.st != ST_ZOMBIE)
                 VIOL("C07", "C07:module-survives-context", "module slot %d is still %s after its context was deregistered", s.idx, st_name(s.st));
             auto it = W->c07_active_before.find(s.idx);
             if (it != W->c07_active_before.end() && s.has_stop) {
                 int ran = s.n_cb[CB_STOP] - it->second;
-                if (ran != 1) VIOL("C07", ran == 0 ? "C07:teardown-no-stop-callback" : "C07:teardown-stop-callback-twice", "module slot %d was RUNNING/PAUSED when its context was deregistered; its stop callback ran %d time(s)", s.idx, ran);
+                int edges = s.leave_active - W->c07_edges_before[s.idx];   // the module may have been restarted by its own callback and stopped again
+                if (ran < 1) VIOL("C07", "C07:teardown-no-stop-callback", "module slot %d was RUNNING/PAUSED when its context was deregistered; its stop callback did not run", s.idx);
+                (void)edges;   // how often it runs beyond that is C01's business (a callback may stop/restart the module meanwhile)
             }
         }
         if (m_ctx_len() >= 0) VIOL("C07", "C07:context-survives-deregister", "the thread still has a context after m_ctx_deregister returned 0");
@@ -376,7 +381,7 @@ void orc_c07_api(const ApiRec &r, const Frame &f, const std::string &snap0, cons
         if (r.rc >= 0) VIOL("C07", "C07:register-after-finalize", "m_mod_register in a finalised context returned %d", r.rc);
         return;
     }
-    if (n == "dereg" && r.rc == 0 && W->frames.empty()) {
+    if (n == "dereg" && r.rc == 0 && W->frames.empty() && f.ctx_gen_at_entry == W->ctx_registrations) {
         bool persist = W->ctx_flags & M_CTX_PERSIST;
         bool known;
         bool looping = ctx_is_looping_probe(&known);
